@@ -54,7 +54,7 @@ Definition p_header : parser (list N * option (list N)) := fun i =>
   pbind (p_take_until_nl i1) (fun i2 accession =>
   pbind (p_line_ending i2) (fun i3 _ =>
     let acc := trim accession in
-    if is_nil acc then POk i3 (id, None) else POk i3 (id, Some acc)))).
+    if is_nil acc then POk i3 0 (id, None) else POk i3 0 (id, Some acc)))).
 
 (* ---------- JASPAR (raw) ---------- *)
 
@@ -85,7 +85,7 @@ Definition j_matrix (buggy : bool) : parser (list (list N)) := fun i =>
   pbind (j_matrix_column i2) (fun i3 g =>
   pbind (j_matrix_column i3) (fun i4 t =>
     match j_build_matrix a c g t with
-    | Ok m => POk i4 m
+    | Ok m => POk i4 0 m
     | Err _ => if buggy then PPanic 11 else PErr KMapRes
     | Panic s => PPanic s
     | OutOfFuel => PFuel
@@ -95,7 +95,7 @@ Definition j_matrix (buggy : bool) : parser (list (list N)) := fun i =>
 Definition j_record (buggy : bool) : parser (record N) := fun i =>
   pbind (p_header i) (fun i1 h =>
   pbind (p_map_res (j_matrix buggy) (fun m => Ok m) i1) (fun i2 m =>
-    POk i2 {| rid := fst h; rdesc := snd h; rmatrix := m |})).
+    POk i2 0 {| rid := fst h; rdesc := snd h; rmatrix := m |})).
 
 (* ---------- JASPAR 2016 ---------- *)
 
@@ -106,7 +106,7 @@ Section Jaspar16.
   Definition p_symbol : parser nat := fun i =>
     pbind (p_anychar i) (fun r c =>
       match aindex A c with
-      | Some k => POk r k
+      | Some k => POk r 0 k
       | None => PErr KMapRes
       end).
 
@@ -147,7 +147,7 @@ Section Jaspar16.
   Definition j16_record : parser (record N) := fun i =>
     pbind (p_header i) (fun i1 h =>
     pbind (p_map_res j16_matrix (fun m => Ok m) i1) (fun i2 m =>
-      POk i2 {| rid := fst h; rdesc := snd h; rmatrix := m |})).
+      POk i2 0 {| rid := fst h; rdesc := snd h; rmatrix := m |})).
 End Jaspar16.
 
 (* ---------- the Reader state machine (jaspar/mod.rs = jaspar16/mod.rs) ---------- *)
@@ -200,7 +200,7 @@ Section Reader.
               | PErr _ | PFail _ => (st1, Err ENom)
               | PPanic k => (st1, Panic k)
               | PFuel => (st1, OutOfFuel)
-              | POk rest rec =>
+              | POk rest _ rec =>
                   let consumed_total := if adv_buggy then n + 1 else length bytes in
                   if str_len rest <=? consumed_total then
                     let start' := start + (consumed_total - str_len rest) in
